@@ -79,6 +79,8 @@ pub uninterp spec fn sys_a() -> int;
 pub uninterp spec fn sys_r() -> Seq<real>;
 pub uninterp spec fn FV(x: Seq<real>) -> Seq<real>;      // a general (pure) vector function for the finite-difference contract
 // res = g - B F(g) for some iterate g and some matrix B, and the update is within the tolerance
+// the secant equation of Broyden's method for the (approximate inverse Jacobian) matrix b:  b y == s
+pub open spec fn broyden_secant_ok(b: int, y: Seq<real>, s: Seq<real>) -> bool { mv(b, y) == s }
 pub open spec fn quasi_update_ok(res: Seq<real>, tol: real) -> bool {
     exists|g: Seq<real>, b: int| #![trigger mv(mneg(b), FV(g))] res == wadd(g, mv(mneg(b), FV(g))) && wnorm(mv(mneg(b), FV(g))) <= tol
 }
@@ -156,6 +158,34 @@ pub open spec fn fd_matrix(m: int, x: Seq<real>, h: real, s: int) -> bool {
     s.loop(1, invariant=["n <= n_max || n == 2", "guess@.len() == S", "func_eval@.len() == S", "shift@.len() == S",
                           "forall|g: F, p: &[R]| p@.len() == S ==> #[trigger] g.requires((p,))",
                           "forall|g: F, p: &[R], y: SV<S>| #[trigger] g.ensures((p,), y) ==> y@ == FV(sl(p)) && y@.len() == S"], decreases="n_max - n")
+    # the Broyden update: after it the approximate inverse Jacobian satisfies the SECANT EQUATION  B (F(x_k) - F(x_{k-1})) = x_k - x_{k-1}
+    # (whenever the scalar s^T B y it divides by is not zero)
+    s.hint("loop 1 begin", "let ghost b0 = jac_inv.id@; let ghost s0 = shift@;")
+    s.hint("after: jac_inv +=", """proof {
+        let y = diff@; let by = mv(b0, y);
+        axiom_mneg(b0, y);
+        assert(adjustment@ == wneg(by));
+        axiom_wdot_neg(s0, adjustment@);
+        axiom_wdot_neg(s0, by);
+        assert(p@ == wdot(s0, by));
+        axiom_rowmul(s0, b0, y);
+        assert(wdot(u.v@, y) == p@);
+        let a = wadd(s0, adjustment@);
+        let m1 = mouter(a, u.v@);
+        axiom_mouter(a, u.v@, y);
+        axiom_madd(b0, mdivs(m1, p@), y);
+        if p@ != 0real {
+            axiom_mdivs(m1, p@, y);
+            let r = mv(jac_inv.id@, y);
+            assert(r == wadd(by, wscale(wscale(a, p@), 1real / p@)));
+            assert forall|i: int| 0 <= i < s0.len() implies #[trigger] r[i] == s0[i] by {
+                let ai = a[i]; let pp = p@;
+                assert((ai * pp) * (1real / pp) == ai) by(nonlinear_arith) requires pp != 0real;
+            }
+            assert(r =~= s0);
+            assert(broyden_secant_ok(jac_inv.id@, y, s0));
+        }
+    }""")
     s.hint("after: #1 guess += &shift", "proof { axiom_wnorm(shift@); if wnorm(shift@) <= tol@ { assert(quasi_update_ok(guess@, tol@)); } }")
     s.hint("after: #2 guess += &shift", "proof { axiom_wnorm(shift@); if wnorm(shift@) <= tol@ { assert(quasi_update_ok(guess@, tol@)); } }")
     s.hint("before: guess +=", """proof {
@@ -363,6 +393,7 @@ DECIDED = [
     "newton (systems): the callbacks being an affine system A(x-r) with constant Jacobian A: non-singular A and n_max >= 2 -> Ok(r) exactly, from ANY start (origin included); singular A -> Err (LU solve gives None); n_max == 0 -> Err; the loop is bounded by n_max (decreases n_max - n)",
     "jac_finite_diff: entry (r, c) of the result is (F(x + h e_c)_r - F(x - h e_c)_r) / (2h) for every r, c -- a subtraction, not a sum -- and x is restored",
     "secant: an Ok result is a quasi-Newton update g - B F(g) of the current iterate (F evaluated AT that iterate) whose size is within the tolerance, at the first step and in the Broyden loop",
+    "secant: after every Broyden (Sherman-Morrison) update the approximate inverse Jacobian B satisfies the secant equation B (F(x_k) - F(x_{k-1})) = x_k - x_{k-1} (whenever the scalar s^T B y it divides by is not zero)",
     "secant: a singular finite-difference Jacobian -> Err; a start exactly on a root (F(x0) = 0) with a non-singular finite-difference Jacobian is returned as Ok(x0); loop bounded by n_max",
     "newton_polynomial: an Ok result is a Newton update g - p(g)/p'(g) whose size |p(g)/p'(g)| is within the tolerance (not a difference of norms); a polynomial of degree 1 is solved exactly from any start in one update (n_max >= 2); n_max == 0 -> Err; bounded by n_max",
     "muller_polynomial (unit muller, complex instantiation): an Ok result is x2 + s where (x0, x1, x2) are the three latest iterates (consecutive ones distinct), s is the Muller step computed from them -- "
@@ -372,7 +403,7 @@ DECIDED = [
 ]
 NOT_DECIDED = [
     "convergence on NON-affine systems from a start inside the convergence region (quadratic convergence is an analytic statement about a neighbourhood; no contract over exact reals expresses 'inside the convergence region')",
-    "secant: the Broyden (Sherman-Morrison) update of the approximate inverse Jacobian B: the row-vector / outer-product operations are typed but carry no contract, so B is unconstrained after the first step (in particular 'affine systems are solved' for secant rests on jac_finite_diff's contract and the first step only)",
+    "secant: that the Broyden iteration converges (the secant equation is decided per update, not the quality of B as an approximation of the inverse Jacobian)",
     "muller_polynomial: that the iteration converges and the returned number is a root of the POLYNOMIAL to a residual bound (analytic); division by a vanishing denominator (b +- d == 0, or the new iterate "
     "coinciding with the one before last) is not excluded -- the contract then says nothing about that step (complex division is total in this unit, its value at 0 unspecified); "
     "the real instantiation N = f64 (verified at N = Complex, where initial.k.real()/imaginary() are the components). Observation, not a violation of C08: the third starting value is built from "
@@ -385,6 +416,7 @@ ASSUMPTIONS = [
     "callbacks are pure functions of their argument (FnMut verified through requires/ensures; for secant every value of the callback type computes the same function, since `&mut func` is handed to jac_finite_diff)",
     "rule R25: `fn(N) -> N` is verified as `impl Fn(R) -> R`",
     "rules R22/R22b/R22c: m[(i,j)] = e, v[i] += e, v[i] reads and v += e on nalgebra values are spelled as shim method calls",
+    "secant's Broyden update: row vectors carry their entries; s^T M, a u^T, M / p, A + B on abstract matrices are uninterpreted and tied to the matrix-vector product by six trusted identities of matrix algebra (prelude/nalg.rs: axiom_rowmul, axiom_mouter, axiom_mdivs, axiom_madd, axiom_mneg, axiom_wdot_neg)",
     "side lemma lemma_newton_step_linear discharged by z3/cvc5 (NRA) and used as an external_body proof fn",
     "muller: prelude/cx.rs + cxdivt.rs (complex numbers as exact pairs; division total, specified for non-zero divisors only; sqrt by what it inverts); Polynomial::make_complex / evaluate as contracts only "
     "(proved in C14 / C13); NRA lemmas lemma_no_zero_divisors, lemma_parabola_times_esq, lemma_parabola_vanishes_plus/minus discharged by z3 (cvc5, z3 5.1 in the thorough tier)",
